@@ -111,3 +111,6 @@ pub use value::{
 // depth-guard helper on docs.rs with no external caller to justify the
 // exposure.
 pub(crate) use value::assert_depth;
+#[cfg(feature = "verif-hooks")]
+#[doc(hidden)]
+pub use value::verif_normalize_extreme_literal_mantissa;
